@@ -38,16 +38,6 @@ def canon(x, depth=0):
     return ("other", type(x).__name__ if not type(x).__module__.startswith("unyt") else "unyt-object")
 
 
-def strip_exact(c):
-    """drop the exact dtype string (the property fixes the dtype *kind*)"""
-    if c[0] == "arr":
-        return ("arr", c[1], c[2], c[4])
-    if c[0] in ("seq", "objarr"):
-        return (c[0],) + tuple(strip_exact(v) if isinstance(v, tuple) and v and isinstance(v[0], str) else
-                               (tuple(strip_exact(w) for w in v) if isinstance(v, tuple) else v) for v in c[1:])
-    return c
-
-
 def same(cu, cb):
     """compare canonical forms: shape, dtype kind and bytes (a 0-d array equals a scalar)"""
     if cu[0] == "arr" and cb[0] == "arr":
@@ -68,6 +58,49 @@ def same(cu, cb):
     if cu[0] == "dict":
         return len(cu[1]) == len(cb[1]) and all(k1 == k2 and same(v1, v2) for (k1, v1), (k2, v2) in zip(cu[1], cb[1]))
     return cu == cb
+
+
+def leaves(c, out):
+    if c[0] == "seq":
+        for v in c[1]:
+            leaves(v, out)
+    elif c[0] == "objarr":
+        out.append(("objshape", c[1]))
+        for v in c[2]:
+            leaves(v, out)
+    else:
+        out.append(c)
+    return out
+
+
+def classify(cu, cb, retype_ok=False):
+    """None when identical, else the kind of the first difference:
+    structure | shape | dtype-kind | values | int-out-retyped"""
+    if same(cu, cb):
+        return None
+    lu, lb = leaves(cu, []), leaves(cb, [])
+    if len(lu) != len(lb):
+        return "structure"
+    for x, y in zip(lu, lb):
+        if x[0] != y[0]:
+            return "structure"
+        if x[0] != "arr":
+            if x != y:
+                return "structure" if x[0] == "objshape" else "values"
+            continue
+        if same(x, y):
+            continue
+        if x[1] != y[1]:
+            return "shape"
+        if x[2] != y[2]:
+            if retype_ok and y[2] in "iu" and x[2] == "f":
+                a = np.frombuffer(x[4], dtype=np.dtype(x[3])).astype(np.float64)
+                b = np.frombuffer(y[4], dtype=np.dtype(y[3])).astype(np.float64)
+                if a.shape == b.shape and bool(np.array_equal(a, b, equal_nan=True)):
+                    return "int-out-retyped"
+            return "dtype-kind"
+        return "values"
+    return "values"
 
 
 def shape_only(c):
@@ -141,16 +174,20 @@ def compare(t, dk, sc, seed, out_mode="unyt", units=UNITS):
     if u["outcome"] == "raise":
         return "unyt-raises", u["exc"] + ": " + u["msg"]
     diffs = []
+    retype_ok = t.out_form or t.func.startswith("ndarray.__i")
     if t.values:
-        if not same(u["result"], b["result"]):
-            what = "shape/dtype" if shape_only(u["result"]) != shape_only(b["result"]) else "values"
-            diffs.append(("result-" + what, f"unyt {brief(u['result'])} numpy {brief(b['result'])}"))
+        w = classify(u["result"], b["result"], retype_ok)
+        if w:
+            diffs.append((w, f"result: unyt {brief(u['result'])} numpy {brief(b['result'])}"))
     else:
         if shape_only(u["result"]) != shape_only(b["result"]):
-            diffs.append(("result-shape/dtype", f"unyt {brief(u['result'])} numpy {brief(b['result'])}"))
+            diffs.append(("shape", f"result: unyt {brief(u['result'])} numpy {brief(b['result'])}"))
     for i, ((role, cu), (_r, cb)) in enumerate(zip(u["ops"], b["ops"])):
-        if not same(cu, cb):
-            diffs.append((("out-buffer" if role == "out" else "operand-after"), f"operand {i}: unyt {brief(cu)} numpy {brief(cb)}"))
+        w = classify(cu, cb, retype_ok)
+        if w:
+            if w != "int-out-retyped":
+                w = "out-buffer" if role == "out" else "operand-after"
+            diffs.append((w, f"operand {i} ({role}) after the call: unyt {brief(cu)} numpy {brief(cb)}"))
     if u["sinks"] != b["sinks"]:
         diffs.append(("written-bytes", "file contents differ"))
     if diffs:
@@ -158,7 +195,7 @@ def compare(t, dk, sc, seed, out_mode="unyt", units=UNITS):
     return "same", None
 
 
-def replay_snippet(t, dk, sc, seed, out_mode, harness_dir):
+def replay_snippet(t, dk, sc, seed, out_mode, harness_dir, units=UNITS, what=None):
     """self-contained python: exits non-zero iff the case still differs (or NumPy raises while unyt returns)"""
     return (
         "import sys, warnings\n"
@@ -168,8 +205,10 @@ def replay_snippet(t, dk, sc, seed, out_mode, harness_dir):
         "np.seterr(all='ignore')\n"
         "import npcatalog as C, c06_diff as D\n"
         f"t = [t for t in C.templates() if t.tid == {t.tid!r}][0]\n"
-        f"st, detail = D.compare(t, {dk!r}, {sc!r}, {seed!r}, {out_mode!r})\n"
+        f"st, detail = D.compare(t, {dk!r}, {sc!r}, {seed!r}, {out_mode!r}, {tuple(units)!r})\n"
         f"call = t.instantiate({dk!r}, {sc!r}, {seed!r})\n"
         "print('call:', t.func, '(', call.describe(), ')  status:', st, detail)\n"
-        "assert st not in ('differ', 'numpy-raises'), (st, detail)\n"
+        f"bad = {what!r}\n"
+        "hit = (st == 'numpy-raises' and bad == 'numpy-raises') or (st == 'differ' and (bad is None or any(d[0] == bad for d in detail)))\n"
+        "assert not hit, (st, detail)\n"
     )
